@@ -223,7 +223,7 @@ def empty_list(t):
 def list_from(t, elems):
     arr = z3.Const(fresh_name('litarr'), z3.ArraySort(z3.IntSort(), sort_of(t.elem)))
     for i, x in enumerate(elems):
-        arr = z3.Store(arr, i, x.e)
+        arr = z3.Store(arr, i, x.e if x.e is not None else z3.BoolVal(False))
     return Val(t, sort_of(t).constructor(0)(z3.IntVal(len(elems)), arr))
 
 
